@@ -64,7 +64,8 @@ CONSTANTS
   TORD,     \* task contract addresses
   OORD,     \* operator accounts (registered or not) in bech32 string order
   REGOPS,   \* the accounts registered in x/operator
-  VAL,      \* [account -> self-delegated USD value = total USD value] (LegacyDec, scaled)
+  VAL,      \* [account -> self-delegated USD value] (LegacyDec, scaled)
+  VALT,     \* [account -> total USD value: self-delegated + delegated by stakers not associated with it]
   PREC,     \* LegacyDec unit
   U64,      \* 2^64 (ActualThreshold is the low 64 bits of a scaled decimal)
   EPOCH0,   \* [identifier -> current epoch number at reset]
@@ -273,11 +274,11 @@ Challenge(st, p) ==
 UpdateVotingPower(st, a) ==
   LET av == st.avs[a]
       newUsd(o) == IF ~st.usd[<<a, o>>].ex THEN st.usd[<<a, o>>]
-                   ELSE [ex |-> TRUE, self |-> VAL[o], total |-> VAL[o],
-                         active |-> IF NGe(VAL[o], MinSelfDec(av)) THEN VAL[o] ELSE N0]
+                   ELSE [ex |-> TRUE, self |-> VAL[o], total |-> VALT[o],
+                         active |-> IF NGe(VAL[o], MinSelfDec(av)) THEN VALT[o] ELSE N0]
       act == {o \in OPS : st.usd[<<a, o>>].ex /\ NGe(VAL[o], MinSelfDec(av))}
   IN [st EXCEPT !.usd = [k \in DOMAIN @ |-> IF k[1] = a THEN newUsd(k[2]) ELSE @[k]],
-                !.avsusd[a] = [ex |-> TRUE, v |-> SumF(act, LAMBDA o : VAL[o])]]
+                !.avsusd[a] = [ex |-> TRUE, v |-> SumF(act, LAMBDA o : VALT[o])]]
 
 \* avs.go: GetEpochEndAVSs
 EpochEndAVSs(st, n) == SelectSeq(AORD, LAMBDA a : st.avs[a].ex /\ st.avs[a].eid = TICKID /\ n >= st.avs[a].start - 1)
